@@ -775,16 +775,34 @@ def _r1(ctx, rm, pkg):
                           f"{dc}.{mname} yields " + ("a rate template" if "text" in kinds else "NotImplemented (refused with NotImplementedError)") if ok and not empty else
                           f"{dc}.{mname} returns {sorted(kinds)}{' / an empty template' if empty else ''}: a request the model does not implement would produce a rate",
                           expected="template or NotImplemented")
-            # overrides call super() first
+            # overrides call super() first (read with the private helpers the override was split into put back: the base call that
+            # opens an extracted first block is still the first thing the override does)
             if dc != "Grain":
-                first = fn.body[0]
-                if isinstance(first, ast.Expr) and isinstance(first.value, ast.Constant) and len(fn.body) > 1:
-                    first = fn.body[1]
+                try:
+                    fx = pkg.expanded(dc, mname)
+                except Exception:
+                    fx = fn
+                if len(fx.args.args) != len(fn.args.args) or [a.arg for a in fx.args.args] != [a.arg for a in fn.args.args]:
+                    fx = fn
+
+                def opening(f_):
+                    first = f_.body[0]
+                    if isinstance(first, ast.Expr) and isinstance(first.value, ast.Constant) and len(f_.body) > 1:
+                        first = f_.body[1]
+                    return first
+                first = opening(fx)
+                if not _is_base_call(pkg, dc, fn, mname, first) and _is_base_call(pkg, dc, fn, mname, opening(fn)):
+                    fx, first = fn, opening(fn)
                 src = ast.unparse(first)
+                is_base = lambda x: isinstance(x, ast.Call) and isinstance(x.func, ast.Attribute) and x.func.attr == mname \
+                    and ((isinstance(x.func.value, ast.Call) and isinstance(x.func.value.func, ast.Name) and x.func.value.func.id == "super")
+                         or (isinstance(x.func.value, ast.Name) and x.func.value.id in pkg.mro(dc)[1:]))
                 # anywhere else in the override: the base method's validation still runs, but not provably before the template is built
-                elsewhere = [x for x in ast.walk(fn) if isinstance(x, ast.Call) and isinstance(x.func, ast.Attribute) and x.func.attr == mname
-                             and ((isinstance(x.func.value, ast.Call) and isinstance(x.func.value.func, ast.Name) and x.func.value.func.id == "super")
-                                  or (isinstance(x.func.value, ast.Name) and x.func.value.id in pkg.mro(dc)[1:]))]
+                elsewhere = [x for x in ast.walk(fx) if is_base(x)] + [x for x in ast.walk(fn) if is_base(x)]
+                # ... or inside a helper the override calls (a method reached through self, a function of the module) that could not
+                # be put back in place: the base method is called, where exactly is not read
+                if not elsewhere:
+                    elsewhere = _base_call_in_helpers(pkg, dc, fx, is_base)
                 if _is_base_call(pkg, dc, fn, mname, first) or not elsewhere and not fn.decorator_list:
                     ctx.check(_is_base_call(pkg, dc, fn, mname, first), "R1", f"{dc}.{mname}:super-first", (pkg.cls(dc).file, fn.lineno),
                               "the override first runs the base method (type and arity validation)", expected=f"super().{mname}(reac)", found=src[:60])
@@ -867,6 +885,28 @@ def _r1(ctx, rm, pkg):
             ctx.unrec("R1", key_, (g.file, fn.lineno), "the method reads the reaction type / calls something, but no `raise` under a comparison of the type with one ReactionType member is seen")
         else:
             ctx.bad("R1", key_, (g.file, fn.lineno), msg_, expected=f"raise unless reaction_type == {tau}", found="no raise under a test of the reaction type")
+
+
+def _base_call_in_helpers(pkg, dc, fn, is_base) -> list:
+    """calls of the base method inside the helpers `fn` (a method of class dc) reaches: methods called through self / cls / the class
+    name (MRO of dc) and functions of the module called by bare name, transitively"""
+    file = pkg.cls(dc).file
+    seen, todo, found = set(), [fn], []
+    while todo and len(seen) < 60:
+        f = todo.pop()
+        for c in ast.walk(f):
+            if not isinstance(c, ast.Call):
+                continue
+            callee = None
+            if isinstance(c.func, ast.Attribute) and isinstance(c.func.value, ast.Name) and c.func.value.id in ("self", "cls", dc):
+                callee = pkg.resolve(dc, c.func.attr)[1]
+            elif isinstance(c.func, ast.Name):
+                callee = pkg.functions.get((file, c.func.id))
+            if callee is not None and id(callee) not in seen:
+                seen.add(id(callee))
+                found += [x for x in ast.walk(callee) if is_base(x)]
+                todo.append(callee)
+    return found
 
 
 def _is_base_call(pkg, dc, fn, mname, st) -> bool:
